@@ -426,6 +426,8 @@ func checkC18(w *World, r *Report) {
 	// every distribution built for a sub-distributor is emitted
 	r.Rule("C18.inflow", "P5,P6,P7", "= C14.sweep: the inflow whose distribution the events report is what really arrived - nothing is returned as swept after a failed transfer from a source (events for coins that never left the source do not add up to the sub-distributor's inflow)", 7)
 	sweepRule(w, r, "C18.inflow")
+	r.Rule("C18.maininflow", "P6", "= C03.inflow: the main-source inflow the events split is the current balance minus the current sum of all remains", 3)
+	shareRule(w, r, checkC03, "C03.inflow", "C18.maininflow", nil)
 	r.Rule("C18.emitall", "P5", "the distributor's block routine emits every Distribution returned for a sub-distributor (every iteration of the loop over the full slice) and the burn event whenever one was built", 2)
 	if bb := w.Func("x/cfedistributor.BeginBlocker"); bb != nil {
 		// the call that builds the events is looked for in the block routine and in its helpers
